@@ -37,7 +37,9 @@ def _doc(pnames, values, labels):
     return {
         "metadata": {"name": "ps", "description": "d", "version": "1.0.0", "digests": {"sha256": SHA},
                      "labels": list(labels), "references": {"hepdata": "ins1234567"}},
-        "patches": [{"metadata": {"name": n, "values": list(v)}, "patch": [{"op": "add", "path": f"/foo{i}", "value": i}]}
+        # the last patch is a no-op (empty operation list): schema-valid, e.g. the nominal point of a grid
+        "patches": [{"metadata": {"name": n, "values": list(v)},
+                     "patch": [] if (i == len(pnames) - 1 and len(pnames) > 1) else [{"op": "add", "path": f"/foo{i}", "value": i}]}
                     for i, (n, v) in enumerate(zip(pnames, values))],
         "version": "1.0.0",
     }
@@ -214,14 +216,15 @@ def harness_for(item):
         env.install_backend()
         ws = {"channels": [{"name": "c", "samples": [{"name": "s", "data": [1.0], "modifiers": [{"name": "mu", "type": "normfactor", "data": None}]}]}],
               "observations": [{"name": "c", "data": [2.0]}], "measurements": [{"name": "m", "config": {"poi": "mu", "parameters": []}}], "version": "1.0.0"}
-        doc = _doc(["p0", "p1"], [(1.0,), (2.0,)], ["l0"])
+        doc = _doc(["p0", "p1", "nominal"], [(1.0,), (2.0,), (0.0,)], ["l0"])
         doc["patches"][0]["patch"] = [{"op": "replace", "path": "/channels/0/samples/0/data", "value": [5.0]}]
         doc["patches"][1]["patch"] = [{"op": "replace", "path": "/observations/0/data", "value": [7.0]}]
+        doc["patches"][2]["patch"] = []
         doc["metadata"]["digests"] = {"sha256": pyhf.utils.digest(ws)}
         ps = PS.PatchSet(doc)
         before = copy.deepcopy(ws)
         import jsonpatch
-        for key, idx in (("p0", 0), ((2.0,), 1), ([1.0], 0)):
+        for key, idx in (("p0", 0), ((2.0,), 1), ([1.0], 0), ("nominal", 2), ((0.0,), 2)):
             out = ps.apply(ws, key)
             want = jsonpatch.JsonPatch(doc["patches"][idx]["patch"]).apply(before)
             env.holds(f"apply[{key!r}]", isinstance(out, pyhf.Workspace) and dict(out) == want, key="apply:result")
